@@ -37,6 +37,7 @@ def gen(rng):
              ["k8", "k64", "k256"]][rng.randrange(6)]
     wm = world.gen_world_model(rng, nfiles=rng.randrange(1, 4), sizes=sizes, p_have=0.3, max_stmts=5, min_missing=1)
     knobs = {"threads": rng.randrange(1, 5), "config_arg": rng.choice(["rel", "abs"])}
+    knobs = scen.env_knobs(rng, knobs)
     plan = {"seed": rng.getrandbits(48) | 1, "perm": True, "faults": []}
     return wm, knobs, plan
 
